@@ -131,6 +131,16 @@ func c03Run(c c03Case, st *vlib.Stats) string {
 	var labels []string
 	nontrivial := false
 	imagesTotal := 0
+	// what is durable in the log: its size at the last fsync of ANY statement
+	// (a statement that returns without an fsync leaves its records at the mercy
+	// of the "cut at the last fsync" crash model of the next victim)
+	lastSyncSize := walSize(dir)
+	baseHook := func(point string, arg uint64) {
+		if point == "wal.sync" {
+			lastSyncSize = walSize(dir)
+		}
+	}
+	storage.VerifHook = baseHook
 	for i, s := range c.Stmts {
 		if !victims[i] {
 			if k, merr := m.Apply(s); merr != nil || k != model.OK {
@@ -148,7 +158,6 @@ func c03Run(c c03Case, st *vlib.Stats) string {
 		pre := m.Clone()
 		nops, _ := pre.RowOps(s)
 		var images []c03Image
-		lastSyncSize := walSize(dir)
 		var hookErr error
 		storage.VerifHook = func(point string, arg uint64) {
 			if point != "wal.write" && point != "wal.sync" {
@@ -178,7 +187,7 @@ func c03Run(c c03Case, st *vlib.Stats) string {
 			}
 		}
 		execErr := eng.ExecStmt(s)
-		storage.VerifHook = nil
+		storage.VerifHook = baseHook
 		if hookErr != nil {
 			return "image capture failed: " + hookErr.Error()
 		}
